@@ -4,7 +4,8 @@ from __future__ import annotations
 import ast
 
 from ..absint import TOP, Const, ExtRef, FuncRef, Interp, ListOf, Obj, Tup
-from ..domains.affine import A, AffineDomain, Poly, mkA
+from ..domains.affine import A, AffineDomain, Poly, Sl, mkA
+from ..domains.arrays import Arr, ArrayDomain
 from ..effects import EffectAnalysis
 from ..repo import calls_in, dotted, norm_src, walk_no_nested
 from ..match import Matcher, src as msrc
@@ -93,49 +94,63 @@ def translation_clause(model, rep, funcs):
     rep.floor("A.bin", 2, "(two binning implementations)")
 
 
+class _BinDom(ArrayDomain):
+    """ArrayDomain that remembers with which slices the image is cropped and with which shape / axes it is reshaped and reduced."""
+
+    def __init__(self, model, **kw):
+        super().__init__(model, **kw)
+        self.crops = []
+
+    def subscript(self, interp, val, index_node, index_val, node):
+        if isinstance(val, Arr) and isinstance(index_val, Tup) and index_val.items and all(isinstance(x, Sl) for x in index_val.items):
+            self.crops.append(index_val)
+        return super().subscript(interp, val, index_node, index_val, node)
+
+
 def bin_image_clause(model, rep, funcs):
+    """bin_image is evaluated symbolically on a 3-D image of shape (s0, s1, s2): the crop, the reshape and the reduced axes are read off the
+    calls it makes, however the slices and shapes are assembled (append loop, comprehensions, ...)."""
     f = funcs.get("acryo/_utils.py::bin_image")
     if f is None:
         return
-    dom = AffineDomain(model, integer_syms={"s", "binsize"}, positive_syms={"s", "binsize"})
+    names = ("s0", "s1", "s2")
+    dom = _BinDom(model, integer_syms=set(names) | {"binsize"}, positive_syms=set(names) | {"binsize"})
     it = Interp(model, dom, depth=0)
+    reshapes, sums = [], []
+
+    def on_call(interp, fn, node, callee, args, kwargs, env):
+        if fn is not f or not isinstance(node.func, ast.Attribute):
+            return
+        if node.func.attr == "reshape" and args:
+            reshapes.append(args[0] if len(args) == 1 else Tup(list(args)))
+        if node.func.attr == "sum":
+            sums.append(kwargs.get("axis", args[0] if args else None))
+
+    it.on_call.append(on_call)
+    shp = tuple(dom.sym(x) for x in names)
+    b = dom.sym("binsize")
+    it.run(f, args={"img": Arr(shp), "binsize": b})
     rep.instance("A.binimage", f.loc())
-    loops = [lp for lp in walk_no_nested(f.node) if isinstance(lp, ast.For)]
-    ok = len(loops) == 1 and norm_src(loops[0].iter) == "img.shape"
-    det = ""
-    if ok:
-        lp = loops[0]
-        sv = norm_src(lp.target)
-        env = {sv: dom.sym("s"), "binsize": dom.sym("binsize")}
-        dm = [n for n in lp.body if isinstance(n, ast.Assign) and isinstance(n.value, ast.Call) and dotted(n.value.func) == "divmod"]
-        if len(dm) == 1 and isinstance(dm[0].targets[0], ast.Tuple):
-            v = it.eval(dm[0].value, env, f)
-            npix_n, res_n = (norm_src(e) for e in dm[0].targets[0].elts)
-            env[npix_n], env[res_n] = v.items
-            sl = [c for c in ast.walk(lp) if isinstance(c, ast.Call) and dotted(c.func) == "slice"]
-            ext = [c for c in ast.walk(lp) if isinstance(c, ast.Call) and isinstance(c.func, ast.Attribute) and c.func.attr == "extend"]
-            if len(sl) == 1 and len(ext) == 1:
-                stop = it.eval(sl[0].args[-1] if len(sl[0].args) > 1 else sl[0].args[0], env, f)
-                kept = dom.sym("s")
-                q = dom.floordiv(dom.sym("s"), dom.sym("binsize"))
-                want_stop = A(q.num * dom.sym("binsize").num)  # b * (s // b)
-                ok = isinstance(stop, A) and stop.equals(want_stop)
-                det = f"kept length {stop!r}, required b*(s//b) = {want_stop!r}"
-                pair = it.eval(ext[0].args[0], env, f)
-                ok = ok and isinstance(pair, Tup) and len(pair.items) == 2 and pair.items[0].equals(q) and pair.items[1].equals(dom.sym("binsize"))
-                det += f"; reshape pair {pair!r}"
-            else:
-                ok = None
-        else:
-            ok = None
+    ok, det = None, f"{len(dom.crops)} crop(s), {len(reshapes)} reshape(s)"
+    if len(dom.crops) == 1 and len(reshapes) == 1 and isinstance(reshapes[0], Tup) and len(reshapes[0].items) == 6 and len(dom.crops[0].items) == 3:
+        ok, det = True, ""
+        for i in range(3):
+            q = dom.floordiv(shp[i], b)
+            want_stop = A(q.num * b.num)
+            sl = dom.crops[0].items[i]
+            start_ok = sl.start is None or (isinstance(sl.start, Const) and sl.start.value is None) or (isinstance(sl.start, A) and sl.start.equals(mkA(0)))
+            if not (start_ok and isinstance(sl.stop, A) and sl.stop.equals(want_stop)):
+                ok = False
+                det += f"axis {i}: kept voxels {sl!r}, required [0 : b*(s//b)] = [0 : {want_stop!r}] (the block grid must start at voxel 0, the molecule offset assumes it); "
+            p0, p1 = reshapes[0].items[2 * i], reshapes[0].items[2 * i + 1]
+            if not (isinstance(p0, A) and isinstance(p1, A) and p0.equals(q) and p1.equals(b)):
+                ok = False
+                det += f"axis {i}: reshaped to ({p0!r}, {p1!r}), required (s//b, b); "
     rep.ob("A", f.anchor, "bin_image drops the incomplete remainder (keeps b*(s//b) voxels) and reshapes every axis to (s//b, b)", ok, det, node=f.node, fn=f,
            clause="block sum", stmt="def bin_image reshape")
-    s = norm_src(f.node)
     MI = Matcher(f)
-    bi: dict = {}
-    ok2 = MI.all_of(["$sl.append(slice(None, $$stop))", "$sh.extend([$$q, binsize])", "$r = img[tuple($sl)].reshape(tuple($sh))"], bi)[0] and \
-        (MI.has("return $r.sum(axis=tuple($i * 2 + 1 for $i in range(img.ndim)))", bi) or MI.has("return $r.sum(axis=tuple(2 * $i + 1 for $i in range(img.ndim)))", bi))
-    ax = []
+    ok2 = len(sums) == 1 and (MI.has("$$r.sum(axis=tuple($i * 2 + 1 for $i in range(img.ndim)))") or MI.has("$$r.sum(axis=tuple(2 * $i + 1 for $i in range(img.ndim)))") or
+                              MI.has("$$r.sum(axis=(1, 3, 5))"))
     rets_bi = [r for r in walk_no_nested(f.node) if isinstance(r, ast.Return)]
     if len(rets_bi) != 1:
         ok2 = False
